@@ -2,7 +2,8 @@
    as a boolean the extracted driver evaluates on every operation: ids of new
    items are fresh, container operations name an existing fit. *)
 From Coq Require Import ZArith List Bool.
-From EosV Require Import lib.AList model.World model.Ops.
+From EosV Require Import lib.AList gen.T_eos model.World model.Engine model.Ops.
+Import ListNotations.
 
 Definition is_some {A} (o : option A) : bool := match o with Some _ => true | None => false end.
 
@@ -22,3 +23,83 @@ Definition op_okb2 (w : world) (o : op) : bool :=
 
 Definition op_ok_now (x : sys) (o : op) : bool := op_okb (clear_err (s_w x)) o.
 Definition op_ok2_now (x : sys) (o : op) : bool := op_okb2 (clear_err (s_w x)) o.
+
+(* ------------------------------------------------------------------ *)
+(* What the running-set theorem for charges and autocharges (proofs/RunsC_p.v,
+   proofs/RunsD_p.v) additionally asks: worlds are flat (no charge or
+   autocharge type defines an autocharge, effect lists are duplicate-free),
+   charges go into directly held items only, and the items of a fit that is
+   about to be loaded are listed once and are unloaded. *)
+
+Definition fit_list (w : world) (f : nat) : list nat :=
+  match get_fit w f with Some ft => fit_items w ft true | None => [] end.
+
+(* the first two phases of a source switch: everything of the solar system is unloaded, the source is set *)
+Definition src_mid (s : st) (x : nat) (y : solsys) (new : option nat) : st :=
+  let s := match ss_source y with
+           | Some _ => fold_left unload_fit_items (ss_fits y) s
+           | None => s end in
+  lift s (fun w => match get_ss w x with
+                   | Some y => put_ss w x (mkSolsys new (ss_fits y))
+                   | None => fail w EKeyAbsent end).
+
+Definition directb (it : item) : bool :=
+  match cr_state (class_row_of (i_cls it)) with StContainer => false | _ => true end.
+
+Fixpoint nodupb {A} (eqb : A -> A -> bool) (l : list A) : bool :=
+  match l with [] => true | x :: r => negb (mem eqb r x) && nodupb eqb r end.
+
+Definition no_auto_typeb (u : universe) (t : itype) : bool :=
+  forallb (fun e => match get_effect u e with
+                    | Some ef => match e_autocharge_attr ef with
+                                 | Some aa => negb (is_some (al_get zeqb (t_attrs t) aa))
+                                 | None => true end
+                    | None => true end) (t_effects t).
+
+Definition NAtidb (w : world) (tid : Z) : bool :=
+  forallb (fun su : nat * universe =>
+             match get_type (snd su) tid with Some t => no_auto_typeb (snd su) t | None => true end) (w_srcs w).
+
+Definition auto_okb (w : world) (u : universe) (t : itype) : bool :=
+  nodupb Z.eqb (t_effects t) &&
+  forallb (fun e => match get_effect u e with
+                    | Some ef => match e_autocharge_attr ef with
+                                 | Some aa => match al_get zeqb (t_attrs t) aa with
+                                              | Some q => NAtidb w (q_trunc q)
+                                              | None => true end
+                                 | None => true end
+                    | None => true end) (t_effects t).
+
+Definition FLATsb (w : world) : bool :=
+  forallb (fun su : nat * universe =>
+             forallb (fun tt : Z * itype => auto_okb w (snd su) (snd tt)) (u_types (snd su))) (w_srcs w).
+
+Definition dir_unloadedb (w : world) (j : nat) : bool :=
+  match get_item w j with
+  | Some jit => if directb jit then negb (is_some (i_loaded jit)) else true
+  | None => true
+  end.
+
+Definition op_okb3 (w : world) (o : op) : bool :=
+  match o with
+  | ODefSource src u =>
+    let w' := set_srcs w (al_set neqb (w_srcs w) src u) in
+    FLATsb w' && forallb (fun jc : nat * item => if directb (snd jc) then true else NAtidb w' (i_tid (snd jc))) (w_items w)
+  | ONewItem _ c tid _ _ =>
+    match c with CAutocharge | CCharge => NAtidb w tid | _ => true end
+  | OCharge m _ => match get_item w m with Some mit => directb mit | None => true end
+  | OSolsysAdd x f =>
+    let w1 := upd_fit (ss_set_fits w x (set_add neqb (ss_fit_list w x) f)) f (fun ft => fit_set_solsys ft (Some x)) in
+    nodupb Nat.eqb (fit_list w1 f) && forallb (dir_unloadedb w1) (fit_list w1 f)
+  | OSource x new =>
+    match get_ss w x, new with
+    | Some y, Some _ =>
+      let m := fst (src_mid (w, []) x y new) in
+      let l := flat_map (fit_list m) (ss_fit_list m x) in
+      nodupb Nat.eqb l && forallb (dir_unloadedb m) l
+    | _, _ => true
+    end
+  | _ => true
+  end.
+
+Definition op_ok3_now (x : sys) (o : op) : bool := op_okb3 (clear_err (s_w x)) o.
